@@ -291,6 +291,7 @@ pub fn run(ctx: &Ctx) -> CheckResult {
             bars.extend(seq.iter().map(|&a| free[a as usize]));
             out.stats.states += 1;
             check_seq(cfg, &bars, &mut out);
+            out.stats.sample(|| format!("{} bars=[{}] vs scalar path, perturbed undocumented fields, integer-backed implementor", cfg.descr(), ops_text(&bars.iter().map(|b| Op::B(*b)).collect::<Vec<_>>())));
             !out.failed()
         });
         out
